@@ -6,7 +6,7 @@ from ..driver import drive, result_of
 
 PROP = "C03"
 RULE = ("(a) partition-only histories: every interleaving class of deepen() / make_children(leaf, newlayer = leaf at "
-        "deepest level) on all 11 partition variants, walker after every operation and an icontract class invariant "
+        "deepest level) on all 21 partition variants (K up to 16), walker after every operation and an icontract class invariant "
         "on the real class; (b) runs of all 19 algorithm variants, walker on every partition of the run (incl. each "
         "base learner of POO/GPO) after construction, after every receive_reward, after every get_last_point (queried "
         "between rounds - sparse or after every round - and between pull and receive_reward) and at the end; non-trivial = depth >= 2 and >= 5 operations (a) / >= 30 rounds (b)")
@@ -37,7 +37,7 @@ def gen_cases(rng, tier, count=None):
                 c["reward"]["family"] = str(rng.choice(["zero", "tied", "const", "twoval", "cl_step"]))
             out.append(gen.add_midqueries(rng, gen.add_queries(rng, c, 0.5), 0.25))
             continue
-        name = C.PART_NAMES[i % len(C.PART_NAMES)]
+        name = C.PART_NAMES_WIDE[i % len(C.PART_NAMES_WIDE)]
         dim = int(rng.integers(1, 4))
         c = {"kind": "partition", "part": name, "box": C.gen_box(rng, dim)[0], "np_seed": int(rng.integers(1 << 30)),
              "ops_seed": int(rng.integers(1 << 30)), "steps": int(rng.integers(6, 30)),
